@@ -195,12 +195,23 @@ def _exec_unit(args):
                         gi = None
                     if gi is not None:
                         variants.append(solve.obligation_smt2(type(ob)(ob.name, ob.kind, gi[0], gi[1]), []))
+                        if getattr(c, "nonlinear_ground", False) and ob.kind == "post":
+                            # the same instances with every uninterpreted application replaced by a fresh constant
+                            # (forgets congruence: weaker hypotheses, sound for proving), for z3's nonlinear tactic
+                            memo_, cache_ = {}, {}
+                            hs_ = [_abstract_ufs(h, memo_, cache_) for h in gi[0]]
+                            g_ = _abstract_ufs(gi[1], memo_, cache_)
+                            variants.append(solve.QFNRA_MARK + solve.obligation_smt2(type(ob)(ob.name, ob.kind, hs_, g_), []))
                 if len(near0) < len(near):
                     variants.append(solve.obligation_smt2(type(ob)(ob.name, ob.kind, near0, ob.goal), []))
                 if len(near) < len(pool_):
                     variants.append(solve.obligation_smt2(type(ob)(ob.name, ob.kind, near, ob.goal), []))
                 variants.append(solve.obligation_smt2(ob, []))
                 variants.append(solve.obligation_smt2(ob, axioms))
+                if getattr(c, "recorded_finding_only", False) and ob.kind == "post":
+                    # an obligation kept only to re-establish a recorded finding: one cheap attempt (it is expected to
+                    # fail; if a change makes it provable the KNOWN-FINDING line disappears)
+                    variants = variants[:1]
             obs.append({"name": ob.name, "kind": ob.kind, "meta": ob.meta, "soft": ob.soft,
                         "smt2": variants[-1], "variants": variants, "nhyps": len(ob.hyps)})
         return {"key": key, "label": label, "unsupported": rr.unsupported, "exits": rr.exits,
@@ -262,6 +273,24 @@ def ground_instances(goal, hyps, rounds=2, max_terms=24):
                 insts.append(inst)
                 index_terms(inst, frontier)
     return ground + insts, g
+
+
+def _abstract_ufs(t, memo, cache):
+    import z3
+    if t.get_id() in cache:
+        return cache[t.get_id()]
+    r = t
+    if z3.is_app(t):
+        d = t.decl()
+        if (d.kind() == z3.Z3_OP_UNINTERPRETED and d.arity() > 0) or d.kind() == z3.Z3_OP_POWER:
+            k = t.sexpr()
+            if k not in memo:
+                memo[k] = z3.FreshConst(t.sort(), "abs")
+            r = memo[k]
+        elif t.num_args():
+            r = d(*[_abstract_ufs(x, memo, cache) for x in t.children()])
+    cache[t.get_id()] = r
+    return r
 
 
 def _has_quantifier(t):
@@ -356,8 +385,10 @@ def run_property(pid, tier="quick", seed=0, verbose=True, only_unit=None):
                 continue
             is_canary = ob["kind"] == "canary"
             last = stage == len(vs) - 1
-            jobs.append((n, vs[stage], solve.Z3_RLIMIT if not is_canary else 1500000,
-                         (solve.Z3_TIMEOUT_MS if last else (8000 if stage == 0 else 20000)) if not is_canary else 1500))
+            tmo = (solve.Z3_TIMEOUT_MS if last else (8000 if stage == 0 else 20000)) if not is_canary else 1500
+            if vs[stage].startswith(solve.QFNRA_MARK):
+                tmo = 120000
+            jobs.append((n, vs[stage], solve.Z3_RLIMIT if not is_canary else 1500000, tmo))
         if not jobs:
             break
         nxt = []
